@@ -584,6 +584,9 @@ fn run_history(sh: &Arc<Shared>, host: &[MockHost], hist: &[Ev]) -> HistOut {
         let model = sh.model.lock().unwrap().clone();
         let after = agent.observe();
         let fault_fired = fault_armed.is_some() && model.fault.is_none();
+        if std::env::var("VERIF_C09_DEBUG").is_ok() {
+            eprintln!("DBG event {:?}: fault_armed {:?} fired {} reported {:?} prev {:?} policy_map {:?} key {:?}", e, fault_armed, fault_fired, model.reported_state(), prev_reported, after.policy_map, after.key_guid);
+        }
         let status_fault = fault_fired && matches!(fault_armed, Some(Fault::Status500) | Some(Fault::StatusInvalidJson) | Some(Fault::StatusShape(_)));
         if last {
             let ap = sh.attest_problems.lock().unwrap().clone();
@@ -849,6 +852,29 @@ fn main() {
         }
     }
     res.cov("unreadable_answer_shape_histories", shape_histories);
+    // a key step fails in the very poll that first sees a changed, non-disabled 2.0 state (the fault is armed beforehand, two
+    // events make the state, one settling poll follows: depth 4, beyond the quick BFS bound)
+    let mut fault_at_change = 0u64;
+    for f in [Fault::Acquire500, Fault::AcquireMalformed, Fault::Attest500] {
+        for (ep, rule) in [(0u8, Rule::Enforce), (0, Rule::Audit), (1, Rule::Enforce), (1, Rule::Audit)] {
+            for order in 0..2 {
+                n += 1;
+                if n % wn != wi {
+                    continue;
+                }
+                let h2 = if order == 0 { vec![Ev::Fault(f), Ev::V2Enabled(true), Ev::SetRule(ep, rule), Ev::Noop] } else { vec![Ev::Fault(f), Ev::SetRule(ep, rule), Ev::V2Enabled(true), Ev::Noop] };
+                let o = run_history(&sh, _host.as_ref().unwrap().as_slice(), &h2);
+                transitions += 1;
+                fault_at_change += 1;
+                polls += o.polls;
+                let case = json!({"history": h2.iter().map(ev_json).collect::<Vec<_>>()});
+                for (sig, what) in &o.problems {
+                    res.violation(sig, what, case.clone());
+                }
+            }
+        }
+    }
+    res.cov("key_step_fault_at_state_change_histories", fault_at_change);
     for p in world::take_panics() {
         res.violation("panic", &p, json!({"note": "panic during exploration"}));
     }
